@@ -64,14 +64,26 @@ func (m mItem) build() *astisub.Item {
 		it.Region = &astisub.Region{ID: "r" + strconv.Itoa(m.pay)}
 		it.InlineStyle = &astisub.StyleAttributes{SRTColor: &c}
 	}
-	for _, l := range m.lines {
+	for li, l := range m.lines {
 		var ln astisub.Line
-		for _, r := range l {
-			ln.Items = append(ln.Items, astisub.LineItem{Text: r})
+		if m.pay != 0 {
+			ln.VoiceName = "v" + strconv.Itoa(m.pay)
+		}
+		for k, r := range l {
+			ln.Items = append(ln.Items, astisub.LineItem{Text: r, StartAt: runInstant(m.pay, li, k)})
 		}
 		it.Lines = append(it.Lines, ln)
 	}
 	return it
+}
+
+// runInstant: the in-cue instant (WebVTT inline timestamp) every run of a payload-carrying cue is given; the
+// operations on the cue list never touch it
+func runInstant(pay, line, run int) time.Duration {
+	if pay == 0 {
+		return 0
+	}
+	return time.Duration(pay*100+line*10+run+1) * time.Millisecond
 }
 
 // payOf recovers the payload tag of an item; 999999 = payload corrupted / inconsistent
@@ -98,10 +110,14 @@ func observe(items []*astisub.Item, ids map[*astisub.Item]int) []mItem {
 			continue
 		}
 		m := mItem{uid: ids[it], start: int64(it.StartAt), end: int64(it.EndAt), pay: payOf(it)}
-		for _, l := range it.Lines {
+		for li, l := range it.Lines {
 			var rs []string
-			for _, r := range l.Items {
+			for k, r := range l.Items {
 				rs = append(rs, r.Text)
+				// the content of a cue includes its voices and the in-cue instants of its runs
+				if m.pay != 0 && m.pay < 999990 && (r.StartAt != runInstant(m.pay, li, k) || l.VoiceName != "v"+strconv.Itoa(m.pay)) {
+					m.pay = 999998
+				}
 			}
 			m.lines = append(m.lines, rs)
 		}
